@@ -151,7 +151,13 @@ def run_shards(binary, cfg, pid, tier, seed, workdir, replay=None):
         if replay:
             env["VERIF_REPLAY"] = os.path.abspath(replay)
         cmd = [binary, "-test.run", cfg["run"], "-test.count=1", "-test.timeout=0", "-test.v"]
-        if t.get("fuzz"):
+        if replay and t.get("fuzz"):
+            target = t["fuzz"].strip("^$")
+            cdir = os.path.join(sdir, "testdata", "fuzz", target)
+            os.makedirs(cdir, exist_ok=True)
+            shutil.copy(replay, os.path.join(cdir, "replayed"))
+            cmd = [binary, "-test.run", "^%s$/replayed" % target, "-test.count=1", "-test.v"]
+        elif t.get("fuzz"):
             cmd = [binary, "-test.run", "^$", "-test.fuzz", t["fuzz"], "-test.fuzztime", t.get("fuzztime", "60s"),
                    "-test.fuzzcachedir", os.path.join(sdir, "fuzzcache"), "-test.parallel", str(par)]
         outf = open(os.path.join(sdir, "stdout.txt"), "w")
@@ -206,6 +212,7 @@ def main():
     seed = int(os.environ.get("VERIF_SEED", "1") or "1")
     replay = None
     keep = False
+    only_stage = None
     while args:
         a = args.pop(0)
         if a == "--tier":
@@ -216,11 +223,19 @@ def main():
             seed = int(args.pop(0))
         elif a == "--keep":
             keep = True
+        elif a == "--stage":
+            only_stage = args.pop(0)
         else:
             print("unknown arg", a)
             return 2
     if tier not in ("quick", "thorough"):
         tier = "quick"
+    if replay:
+        try:
+            if open(replay, "rb").read(16).startswith(b"go test fuzz"):
+                tier = "thorough"  # native fuzz stages exist in the thorough tier only
+        except Exception:
+            pass
     if pid not in CHECKS:
         print("unknown property", pid)
         return 2
@@ -249,7 +264,15 @@ def main():
     for si, st in enumerate(stages):
         if tier not in st:
             continue
-        if replay and st.get("fuzz_only"):
+        if only_stage and st["name"] != only_stage:
+            continue
+        is_fuzz_file = False
+        if replay:
+            try:
+                is_fuzz_file = open(replay, "rb").read(16).startswith(b"go test fuzz")
+            except Exception:
+                pass
+        if replay and is_fuzz_file != bool(st.get("fuzz_only")):
             continue
         if replay and os.environ.get("VERIF_REPLAY_STAGE") not in (None, "", st["name"]):
             continue
@@ -271,6 +294,41 @@ def main():
                         result = json.load(f)
                 except Exception as e:  # truncated result
                     result = None
+            if st[tier].get("fuzz"):
+                # native fuzzing: no result.json; count executions from the fuzzer's progress lines
+                execs = [int(x) for x in re.findall(r"execs: (\d+)", out)]
+                interesting = [int(x) for x in re.findall(r"new interesting: (\d+)", out)]
+                n_exec = max(execs) if execs else 0
+                st_eval += n_exec
+                merged["evaluations"] += n_exec
+                merged["labels"]["fuzz-execs:" + st["name"]] = merged["labels"].get("fuzz-execs:" + st["name"], 0) + n_exec
+                merged["labels"]["fuzz-new-interesting:" + st["name"]] = max(interesting) if interesting else 0
+                for i in range(max(interesting) if interesting else 0):
+                    hashes.add(("fz%s%d" % (st["name"], i)).encode()[:8].ljust(8, b"_"))
+                crash = re.search(r"Failing input written to (\S+)", out)
+                if replay:
+                    merged["evaluations"] += 1
+                    if rc != 0:
+                        m = re.search(r"--- FAIL.*?\n((?:.*\n){0,12})", out)
+                        violations.append((os.path.abspath(replay), "the saved fuzz input still fails: " + (m.group(1)[:1500] if m else out[-800:])))
+                    continue
+                if rc != 0 and not timed_out:
+                    if crash:
+                        srcf = os.path.join(sdir, crash.group(1))
+                        os.makedirs(os.path.join(FOUND, pid), exist_ok=True)
+                        dst = os.path.join(FOUND, pid, "fuzz-%s-%s" % (st[tier]["fuzz"].strip("^$"), os.path.basename(srcf)))
+                        try:
+                            shutil.copy(srcf, dst)
+                        except Exception:
+                            dst = srcf
+                        m = re.search(r"--- FAIL.*?\n((?:.*\n){0,12})", out)
+                        violations.append((dst, "native fuzzing found a failing input: " + (m.group(1)[:1500] if m else "")))
+                    else:
+                        infra.append("fuzz stage %s exited rc=%s without a crasher" % (st["name"], rc))
+                        log(out[-2000:])
+                elif timed_out:
+                    infra.append("fuzz stage %s exceeded its time budget" % st["name"])
+                continue
             vio_lines = [l for l in out.splitlines() if l.startswith("VIOLATION ")]
             if replay and "REPLAY-NOT-MINE" in out:
                 continue
